@@ -118,7 +118,7 @@ Qed.
 
 Theorem str_slice_no_crash : forall ss f0 f1 w, str_slice ss f0 f1 <> OCrash w.
 Proof.
-  intros ss f0 f1 w. unfold str_slice.
+  intros sb f0 f1 w. unfold str_slice. set (ss := go_runes sb).
   set (n := zlen ss). set (s0 := go_int f0). set (e0 := go_int f1).
   set (s1 := if s0 <? 0 then n + s0 + 1 else s0).
   destruct (Z.ltb_spec s1 1); [discriminate|].
